@@ -175,6 +175,7 @@ HANDMADE = [
     "pack:2 pu\xe0", "l2cache\xe0:1 pu:1", "group\xe0:1 pu:1", "pack:2 [numa(indexes=1,0)] pu:2", "pack:2 [numa(indexes=pack)] pu:2", "pack:2 [numa] [numa] pu:2",
     "pack:2\npu:2\n", "pack:2(unknown) pu:2", "pack:2(a b c) pu:2", "pack:2( ) pu:2", "pack:2() pu:2", "pack:2)( pu:2", "pack:2(indexes=)", "pu:1(indexes=)", "pu:1(indexes=0)",
     "pack:2(indexes=core) core:2 pu:1", "pu:2(indexes=1*65536:1*65536:1*65536:1*65536)", "group:2 [numa(indexes=pack)] socket:2 pu:1", "pu:8(indexes=1* 2:2*2:4*2)",
+    "numa:3(indexes=0,1,1) pu:1", "pack:2 [numa(indexes=0,0)] pu:1", "pack:2(indexes=1,1) pu:1", "[nu]gr:1[nu]so:2Gr:3[nu]L1:1[nu(memory=2GB indexes=pa)]1",
     "numa:2(indexes=1,0) pu:1", "numa:2 core:2 pu:1", "pack:2 numa:2 pu:1", "pack:1 numa:1 core:1 pu:1", "core:1 pack:1 pu:2", "l1:1 l2:1 pu:2",
 ]
 
